@@ -448,6 +448,57 @@ def oracle_c03(arch, top, loaded=False):
     return bad
 
 
+def carried_of(arch0):
+    """what a package that is about to be loaded holds besides the members every save writes afresh: its extra members, the
+    pictures and the other files of its embedded objects.  Read from the package itself (zipfile listing + manifest through
+    expat).  -> [(path, owner folder, path inside the owner, media type or None if not listed exactly once, bytes)]
+    A file belongs to the object of the longest chain of listed "Object <n>/" folders in front of its path."""
+    man = arch0.manifest or []
+    folders = set(p for p, _ in man if p.endswith('/'))
+    out = []
+    for p in sorted(set(q for q, _ in man)):
+        if p.endswith('/') or arch0.names.count(p) != 1:
+            continue
+        if p in ('mimetype', 'META-INF/manifest.xml') or p.endswith('META-INF/documentsignatures.xml'):
+            continue            # written afresh / signatures are dropped on purpose
+        owner = ''
+        while True:
+            m = re.match('Object [0-9]+/', p[len(owner):])
+            if m is None or owner + m.group(0) not in folders:
+                break
+            owner += m.group(0)
+        rel = p[len(owner):]
+        if rel in ('content.xml', 'styles.xml', 'settings.xml') or (owner == '' and rel in ('meta.xml', 'Thumbnails/thumbnail.png')):
+            continue            # parsed and generated again / set through addThumbnail
+        mts = [t for q, t in man if q == p]
+        out.append((p, owner, rel, mts[0] if len(mts) == 1 else None, [d for n, _, _, d in arch0.members if n == p][0]))
+    return out
+
+
+def oracle_carried(arch0, arch, skip=()):
+    """C03 for a document that came from load(): "the manifest lists exactly the files in the archive, each under the path where
+    its bytes actually are" is said about the package of THIS document - the extra members it was loaded with and the files of
+    its embedded objects are files of that package: each is in the archive under its own path, byte-identical, listed with the
+    media type it was loaded with.  `skip`: paths the caller registered anew through the API after the load."""
+    bad = []
+    data, mdict = {}, {}
+    for n, _, _, d in arch.members:
+        data.setdefault(n, []).append(d)        # a name that occurs twice is another clause's business: any occurrence counts here
+    for p_, t in (arch.manifest or []):
+        mdict.setdefault(p_, []).append(t)
+    for p, owner, rel, mt, b in carried_of(arch0):
+        if p in skip:
+            continue
+        what = 'object-file' if owner else 'extra-member'
+        if b not in data.get(p, []):
+            elsewhere = sorted(n for n, ds in data.items() if b in ds and n.endswith('/' + rel))[:3]
+            bad.append((what + '-not-at-its-path-after-load', '%r of the loaded package is %s at that path in the saved package%s' % (
+                p, 'different' if p in data else 'not', (' (the bytes are at %r)' % elsewhere) if elsewhere else '')))
+        elif mt is not None and mdict.get(p) != [mt]:
+            bad.append((what + '-mediatype-after-load', '%r was loaded with media type %r, the saved manifest says %r' % (p, mt, mdict.get(p))))
+    return bad
+
+
 def resolve_ref(arch, ref, marker, mimetype):
     """does "./X" name a folder X/ that holds this object's content.xml + styles.xml and that the manifest
     declares with the object's media type?  -> None if yes, else a description"""
